@@ -20,6 +20,8 @@ def main():
         rc, _ = sh(["git", "-C", "/repo", "worktree", "add", "--detach", tmp + "/wt", "-q"])
         wt = tmp + "/wt"
         env = dict(os.environ, PYTHONPATH=wt, PYTHONDONTWRITEBYTECODE="1")
+        shutil.copy(demo, wt + "/_demo.py")      # run the demo from inside the scratch tree (sys.path[0] is the script's directory)
+        demo = wt + "/_demo.py"
         out["demo_without"] = sh(["/venv/bin/python", demo], cwd=wt, env=env, timeout=600)[0]
         rc, o = sh(["git", "-C", wt, "apply", patch])
         out["applies"] = rc == 0
